@@ -45,12 +45,21 @@ OUTSIDE = {"C01": ["KF_PlayKeepsStaleReader", "KF_FrozenLedgerHeight"], "C02": [
            "C05": _ALL, "C06": _ALL, "C17": _ALL, "C18": _ALL}
 
 
-def replay_validate(run, groups, extra_driver_args=(), trace_cfg="Trace_XState.cfg"):
+def kf_for(run):
+    """Constant overrides of the trace cfgs for this property: deviations listed as known (reported), deviations outside
+    the property (silent), and for C13 the judgement of the read-before-overwrite half of the pool's order."""
     known = {k: KF_DESC.get(k, d) + " [" + d + "]" for k, d in vp.known_keys(run.pid).items()}
     kf_consts = {k: "TRUE" for k in known if k.startswith("KF_")}
     for k in OUTSIDE.get(run.pid, []):
         kf_consts[k] = "TRUE"
         known.setdefault(k, None)
+    if run.pid == "C13":
+        kf_consts["JudgePoolAntiDep"] = "<- Yes"
+    return kf_consts, known
+
+
+def replay_validate(run, groups, extra_driver_args=(), trace_cfg="Trace_XState.cfg"):
+    kf_consts, known = kf_for(run)
     total = 0
     for p, behs, cat in groups:
         args = ["-catalog", cat, "-window", str(p.get("window", 0))] + list(p.get("driver_args", [])) + list(extra_driver_args)
@@ -75,11 +84,7 @@ def engine_phase(run, num, ops=40, window=0, mc=True, tag="", extra_consts=None)
     consts.update(extra_consts or {})
     behs = run.tlc_gen("Gen_Engine.tla", "Gen_Engine.cfg", num, ops + 30, name="genE" + tag, seed=run.seed * 1000 + 77, consts=consts)
     cat = os.path.join(run.work, "genE" + tag, "catalog.json")
-    known = {k: KF_DESC.get(k, d) + " [" + d + "]" for k, d in vp.known_keys(run.pid).items()}
-    kf_consts = {k: "TRUE" for k in known if k.startswith("KF_")}
-    for k in OUTSIDE.get(run.pid, []):
-        kf_consts[k] = "TRUE"
-        known.setdefault(k, None)
+    kf_consts, known = kf_for(run)
     tracecheck.replay_and_validate(run, behs, driver="engine-replay", driver_args=["-catalog", cat, "-window", str(window)],
                                    trace_module="Trace_Engine.tla", trace_cfg="Trace_Engine.cfg", consts=dict({"Window": window}, **(extra_consts or {})),
                                    kf_consts=kf_consts or None, kf_desc={k: known.get(k) for k in kf_consts}, name="E", batch=200)
@@ -105,6 +110,7 @@ def net_phase(run, num, ops=34, nodes=3, mc=True):
     cat = os.path.join(run.work, "genN", "catalog.json")
     tracecheck.replay_and_validate(run, behs, driver="net-replay", driver_args=["-catalog", cat, "-nodes", str(nodes)],
                                    trace_module="Trace_Net.tla", trace_cfg="Trace_Net.cfg", consts={"Nodes": nodeset},
+                                   kf_consts={"JudgePoolAntiDep": "<- Yes"} if run.pid == "C13" else None,
                                    name="N", batch=60)
     st = stats(behs)
     run.cov["net_op_mix"] = dict(st)
@@ -130,11 +136,7 @@ def maybe_replay(run):
         cat = os.path.join(run.work, "genR", "catalog.json")
         if "-catalog" in args:
             args[args.index("-catalog") + 1] = cat
-    known = {k: KF_DESC.get(k, d) + " [" + d + "]" for k, d in vp.known_keys(run.pid).items()}
-    kf_consts = {k: "TRUE" for k in known if k.startswith("KF_")}
-    for k in OUTSIDE.get(run.pid, []):
-        kf_consts[k] = "TRUE"
-        known.setdefault(k, None)
+    kf_consts, known = kf_for(run)
     prog = [{k: v for k, v in o.items() if k not in ("tr", "i")} for o in rp["program"]]
     tracecheck.replay_and_validate(run, [prog], driver=driver, driver_args=args, trace_module=rp["trace_module"],
                                    trace_cfg=rp["trace_cfg"], consts=consts, name="R",
